@@ -68,6 +68,7 @@ var c19CovertCIDRs = []string{
 	"not-a-cidr",
 	" 172.16.0.0/12",
 	"198.18.0.1", // bare address, no mask
+	"2001:db8:bb::5", // bare IPv6 address, no mask
 	"fe80::0/16",
 }
 
@@ -78,6 +79,7 @@ var c19PhantomCIDRs = []string{
 	"141.219.0.0/16",
 	"192.122.190.0/33",
 	"35.8.1.1",
+	"2001:48a8:687f:1::7", // bare IPv6 address, no mask
 }
 
 type c19Pat struct {
@@ -894,7 +896,11 @@ func c19Secret(i int) []byte {
 var c19TrafficCoverts = []string{"203.0.113.5:443", "10.1.2.3:443", "ok.example.net:443", "localhost:80", "[2001:db8:ffff::5]:443", "rebind.example.net:443", "bad covert"}
 var c19Sources = []pb.RegistrationSource{pb.RegistrationSource_API, pb.RegistrationSource_Detector, pb.RegistrationSource_DetectorPrescan, pb.RegistrationSource_Unspecified}
 
-func (w *c19World) ingestOne() {
+// ingestOne sends one registration through the real ingest workers. With race set the periodic
+// statistics printers run while the registration is still in flight: every lock operation of the
+// worker and of the printers is then a scheduling point, so the tape decides where the statistics
+// reset lands inside the worker's accounting.
+func (w *c19World) ingestOne(race bool) bool {
 	tp := w.tp
 	secret := tp.Choose("reg_secret", 4)
 	gen := uint32(c19Gens[tp.Choose("reg_gen", len(c19Gens))])
@@ -919,13 +925,28 @@ func (w *c19World) ingestOne() {
 	// subject: try the pure part first
 	if pv, _ := c19Catch(func() { w.rm.parseRegMessage(msg) }); pv != "" {
 		w.r.Logf("registration not sent: parsing it panics (%s) — outside this property", pv)
-		return
+		return true
 	}
 	before := w.rm.registeredDecoys.TotalRegistrations()
 	w.zi.addZMQMessage()
-	w.regChan <- msg
-	time.Sleep(time.Second)
-	c19Quiesce()
+	ok := true
+	if sc := c19Sched; race && sc != nil && hook.TaskName() != "" {
+		w.r.Probe("stats_printed_while_registration_in_flight")
+		w.r.Logf("the statistics printers run while the next registration is in flight")
+		sc.LockYield, sc.UnlockYield = true, true
+		w.regChan <- msg
+		ok = w.printStats(false) && w.printStats(true)
+		time.Sleep(time.Second)
+		c19Quiesce()
+		sc.LockYield, sc.UnlockYield = false, false
+		if !ok {
+			return false
+		}
+	} else {
+		w.regChan <- msg
+		time.Sleep(time.Second)
+		c19Quiesce()
+	}
 	after := w.rm.registeredDecoys.TotalRegistrations()
 	w.regsSent++
 	w.r.Logf("registration secret=%d gen=%d covert=%q source=%s v4=%v v6=%v prescanned=%v phantom-probe=%s -> tracked %d->%d", secret, gen, covert, src, v4, v6, pre,
@@ -933,6 +954,7 @@ func (w *c19World) ingestOne() {
 	if after > before {
 		w.r.Probe("registration_tracked")
 	}
+	return true
 }
 
 func (w *c19World) epoch(tag string) bool {
@@ -959,7 +981,9 @@ func (w *c19World) epoch(tag string) bool {
 	if traffic&2 != 0 {
 		n := 1 + tp.Choose("regs", 4)
 		for i := 0; i < n; i++ {
-			w.ingestOne()
+			if !w.ingestOne(tp.Prob("stats_during_ingest", 1, 4)) {
+				return false
+			}
 		}
 		// direct liveness queries: fill the caches past small capacities
 		k := tp.Choose("liveness_queries", 8)
@@ -1336,9 +1360,13 @@ func TestVerifC19(t *testing.T) {
 // c19Scenario runs the whole (single-threaded) scenario as ONE task of a scheduler: the package's
 // locks are then emulated, so a lock that a reload or a printer leaves held shows up as a deadlock
 // verdict (the director waits for a lock nobody will release) instead of hanging the process.
+var c19Sched *hook.Sched
+
 func c19Scenario(r *sim.Run) {
 	s := hook.Install(r.Tape)
 	defer s.Uninstall()
+	c19Sched = s
+	defer func() { c19Sched = nil }()
 	finished := false
 	// a panic in one of the station's own goroutines (ingest workers do the statistics accounting
 	// of a registration) takes the station down
